@@ -142,6 +142,21 @@ def run_model(spec, seed, segments, tie, offset=0, system=None):
     return digest(m, base), bus.dispatch_serial, m
 
 
+class RunawayRun(Exception):
+    pass
+
+
+class EndGuard:
+    """Bus monitor: a run that executes events due after its own end is stopped (it might never end)."""
+
+    def __init__(self, env, end):
+        self.env, self.end = env, end
+
+    def dispatch(self, ev):
+        if ev.time > self.end and not instrument.PROBING:
+            raise RunawayRun(f'an event due at {ev.time!r} is being executed by a run that ends at {self.end!r}')
+
+
 class Snapshot:
     """Event action: deep-copies the whole model from inside the running simulation (a periodic checkpoint)."""
 
@@ -179,6 +194,7 @@ def run_model_with_snapshot(spec, seed, cut, total, take):
         env.schedule_event(0.625, -2, TickerStart(tick), 4.5)
         snap = Snapshot(m, take)
         env.schedule_event(cut, -2, snap, 6.5)
+        bus.attach(EndGuard(env, total))
         m.system.simulate(total, print_summary=False)
         d_orig = digest(m, base)
         d_copy = None
